@@ -244,8 +244,12 @@ func (res *c22res) toCase(kind string, idx int, tags map[string]int) Case {
 	if res.deadlock {
 		tags["deadlock"] = 1
 	}
-	coq := fmt.Sprintf("{| q_ops := %s; q_dumps := %s; q_deadlock := %s; q_panic := %s |}",
-		CList(ops), CList(dumps), CBool(res.deadlock), CBool(rc.panics.Load() > 0))
+	raceB, raceTxt := raceMark()
+	if raceB == "true" {
+		tags["race-report"] = 1
+	}
+	coq := fmt.Sprintf("{| q_ops := %s; q_dumps := %s; q_deadlock := %s; q_panic := %s; q_race := %s |}",
+		CList(ops), CList(dumps), CBool(res.deadlock), CBool(rc.panics.Load() > 0), raceB)
 	var key strings.Builder
 	for i, op := range rc.ops {
 		fmt.Fprintf(&key, "%d:%s/%d=>%s;", op.cli, op.req.Text(), op.req.Stable, op.obs.Text())
@@ -260,7 +264,7 @@ func (res *c22res) toCase(kind string, idx int, tags map[string]int) Case {
 			fmt.Fprintf(&key, "|%s:%d:%v", en.Path, en.Size, en.Data)
 		}
 	}
-	return Case{Index: idx, Kind: kind, Coq: coq, Tags: tags, Key: key.String(), Text: kind + "\n" + strings.Join(txt, "\n")}
+	return Case{Index: idx, Kind: kind, Coq: coq, Tags: tags, Key: key.String(), Text: kind + "\n" + strings.Join(txt, "\n") + raceTxt}
 }
 
 // genC22c: 2-3 clients x 2-5 requests on 1-2 files; every written byte identifies its writer and request
